@@ -458,7 +458,7 @@ def targetNotBlank (lines : List Str) : Bool :=
 /-- case 2 of `add_note`: no item line was seen and the line before the (blank) target is not blank -/
 def headerOnly (lines : List Str) : Bool :=
   !(insertionIndex lines).2.1 && decide ((insertionIndex lines).1 > 0) &&
-    !isBlankLine (lines.getD ((insertionIndex lines).1 - 1) [])
+    !isWsLine (lines.getD ((insertionIndex lines).1 - 1) [])
 
 theorem addNote_eq (lines n : List Str) :
     addNote lines n =
